@@ -277,3 +277,30 @@ func Verif_C10_two_packets() {
 	check(first, h1, "T", 1)
 	check(second, h2, to2, 2)
 }
+
+// Verif_C10_send_side: the sending side for ANY budget 0..255: a datagram addressed to a service on
+// the sending node itself (by its ID or as "localhost" in any letter case) needs no forwarding and is
+// delivered whatever its budget - budget 0 included; one addressed to another node leaves with exactly
+// the budget given minus nothing (the first relay decrements), or is reported expired when the budget is 0.
+func Verif_C10_send_side() {
+	n := verifNetceptor("A")
+	s := n.s
+	cb := n.verifConn("B", 1)
+	s.routingTable["B"] = "B"
+	sk := n.verifListener("svc")
+	h := verifapi.Byte()
+	to := []string{"A", "localhost", "LocalHost", "B"}[verifapi.Choose(4)]
+	err := s.SendMessageWithHopsToLive("src", to, "svc", []byte{7}, h)
+	verifapi.Quiesce()
+	out := verifTake(cb)
+	verifapi.Cover("sent")
+	if to != "B" {
+		verifapi.Assert("local-destination-delivered-whatever-the-budget", verifapi.All(err == nil, len(*sk.got) == 1, len(out) == 0))
+		if len(*sk.got) == 1 {
+			verifapi.Assert("local-delivery-names-the-sender", verifapi.All((*sk.got)[0].FromNode == "A", (*sk.got)[0].FromService == "src"))
+		}
+	} else {
+		verifapi.Assert("remote-destination-not-delivered-locally", len(*sk.got) == 0)
+	}
+	verifapi.Assert("no-lock-left-held", verifapi.HeldLocks() == 0)
+}
